@@ -8,7 +8,7 @@ from .. import core
 PROP = "C09"
 
 CALLABLES = ["func", "method", "static", "classm", "pset", "afunc", "amethod"]
-FORMS = ["none", "cls", "inst", "func", "lambda", "bound", "static_via_class", "classm_via_class", "base_cls", "base_inst", "falsy_inst", "falsy_cls", "callable_inst"]
+FORMS = ["none", "cls", "inst", "func", "lambda", "bound", "static_via_class", "classm_via_class", "base_cls", "base_inst", "falsy_inst", "falsy_cls", "callable_inst", "none_new_cls"]
 
 PRELUDE = '''\
 import functools
@@ -33,6 +33,10 @@ class CallableErr(Exception):
         LOG.append(('ef', {'called': True}))
         return MyErr('from __call__')
 CINST = CallableErr("the callable instance")
+class NoneNewErr(Exception):
+    # an exception class which does not hand out exceptions: a non-exception "return value", i.e. a TypeError, never silence
+    def __new__(cls, *args, **kwargs):
+        return None
 FINST = FalsyErr("the falsy instance")
 INST = MyErr("the instance")
 BINST = MyBase("the base instance")
@@ -81,6 +85,8 @@ def render(case):
         err = ", error=FINST"
     elif form == "callable_inst":
         err = ", error=CINST"
+    elif form == "none_new_cls":
+        err = ", error=NoneNewErr"
     elif form == "falsy_cls":
         err = ", error=FalsyErr"
     elif form == "func":
@@ -308,6 +314,9 @@ def run_case(case, acc):
                 want = {"cls": ns["MyErr"], "base_cls": ns["MyBase"], "falsy_cls": ns["FalsyErr"]}[form]
                 if type(exc) is not want or len(exc.args) != 1 or not MSG_RE.match(str(exc.args[0])):
                     viol("error_class", "call {}: expected {}(generated message), got {!r}".format(i, want.__name__, exc))
+            elif form == "none_new_cls":
+                if type(exc) is not TypeError:
+                    viol("non_exception_return", "call {}: the class gave None instead of an exception; expected TypeError, got {!r}".format(i, exc))
             elif form in ("inst", "base_inst", "falsy_inst", "callable_inst"):
                 want = {"inst": ns["INST"], "base_inst": ns["BINST"], "falsy_inst": ns["FINST"], "callable_inst": ns["CINST"]}[form]
                 if exc is not want:
